@@ -43,11 +43,12 @@ type Result struct {
 
 	start    time.Time
 	distinct map[string]struct{}
+	perKey   map[string]int
 }
 
 func New(engine, tier string, seed int64) *Result {
 	return &Result{Engine: engine, Tier: tier, Seed: seed, Distribution: map[string]int{},
-		start: time.Now(), distinct: map[string]struct{}{}}
+		start: time.Now(), distinct: map[string]struct{}{}, perKey: map[string]int{}}
 }
 
 func (r *Result) Count(key string) { r.Distribution[key]++ }
@@ -76,7 +77,9 @@ func (r *Result) Disagree(line, impl, model, props string) {
 
 func (r *Result) Violate(v Violation) {
 	v.Engine = r.Engine
-	if len(r.Violations) < 200 {
+	// keep at most 5 examples per key so that a frequent key cannot hide another one
+	r.perKey[v.Property+"|"+v.Key]++
+	if r.perKey[v.Property+"|"+v.Key] <= 5 && len(r.Violations) < 400 {
 		r.Violations = append(r.Violations, v)
 	}
 	r.Count("VIOLATION:" + v.Property + ":" + v.Oracle)
